@@ -1,7 +1,7 @@
 (* Concrete witnesses for property C15: records of the repaired defects
    (fx = false) and non-vacuity examples (fx = true). *)
 From Coq Require Import List NArith Arith Bool Permutation Relations.
-From HV Require Import Base.Res Base.Str Model.Query Model.QueryParse
+From HV Require Import Base.Res Base.Str Model.Query Model.QueryParse Model.QueryEdit Proofs.QueryEditProofs
   Proofs.QueryProofs Proofs.QueryParseProofs Proofs.QueryBalanceProofs Proofs.QuerySiblingProofs.
 Import ListNotations.
 
@@ -67,3 +67,11 @@ Proof. intro H. apply and_assoc_general. right; exact H. Qed.
 Lemma sibling_order_matches a b :
   sperm a b -> is_tag a = false -> uniq a -> forall e, matches true e a = matches true e b.
 Proof. intros Hs Ha Hu. apply (sibling_order_invariant_fixed a b Hs Ha Hu). Qed.
+
+(* a tag appended to the second group of (Red,Blue),(Red,Blue) is found by a quoted and by a star term *)
+Definition w_green : node := Tag 9 [[99; 111; 108; 111; 114]%N; [103; 114; 101; 101; 110]%N] [71; 114; 101; 101; 110]%N [71; 114; 101; 101; 110]%N.
+Lemma append_example :
+  path_ok [1] w_ann1 = true /\
+  search true 100 [34; 71; 114; 101; 101; 110; 34]%N w_ann1 = Ok false /\ search true 100 [34; 71; 114; 101; 101; 110; 34]%N (append_at [1] w_green w_ann1) = Ok true /\
+  search true 100 [71; 114; 101; 42]%N w_ann1 = Ok false /\ search true 100 [71; 114; 101; 42]%N (append_at [1] w_green w_ann1) = Ok true.
+Proof. repeat split; vm_compute; reflexivity. Qed.
